@@ -179,6 +179,37 @@ def load (enforceNew : Bool) (regs : List RuleDefault) (e : Enf) (fs : FS) (forc
 def fresh (enforceNew : Bool) (regs : List RuleDefault) (fs : FS) : Enf :=
   load enforceNew regs (Enf.init fs.dirs.length) fs false
 
+/-! ### Choice of the policy file (`Enforcer.__init__`, `pick_default_policy_file`) -/
+
+structure PickInput where
+  ctor : Option Str            -- `policy_file` constructor argument
+  value : Str                  -- `conf.oslo_policy.policy_file`
+  neverConfigured : Bool       -- option location is `opt_default` or `set_default`
+  yamlExists : Bool            -- `conf.find_file('policy.yaml')`
+  jsonExists : Bool            -- `conf.find_file('policy.json')`
+  fallback : Bool              -- `fallback_to_json_file`
+
+def policyYaml : Str := "policy.yaml".toList
+def policyJson : Str := "policy.json".toList
+
+/-- `pick_default_policy_file`, branch for branch -/
+def pickDefault (i : PickInput) : Str :=
+  if i.value = policyYaml ∧ i.fallback = true then
+    let picked : Option Str :=
+      if i.yamlExists then some i.value
+      else if i.neverConfigured then (if i.jsonExists then some policyJson else none)
+      else none
+    match picked with
+    | some f => f
+    | none => i.value
+  else i.value
+
+/-- `self.policy_file = policy_file or pick_default_policy_file(…)` -/
+def pickPolicyFile (i : PickInput) : Str :=
+  match i.ctor with
+  | some f => if f.isEmpty then pickDefault i else f
+  | none => pickDefault i
+
 /-! ### File operations of the C10 alphabet -/
 
 inductive FileId where
